@@ -19,7 +19,8 @@ EXPLANATION = (
     "startswith('ola_') with exactly that prefix stripped, anything else raises TypeError; hop > size raises. Order: "
     "block * window first, then before, transform, func, inverse_transform, after (None skipped, numpy defaults only "
     "under 'is NotSpecified'). E3: peek() for size detection cannot leak StopIteration out of the generator. Not "
-    "decided: the numeric sums themselves.")
+    "decided: the numeric sums themselves."
+    " Also: C09.dispatch (decision tables): window preparation of both overlap_add strategies and of blk_gen for every kind of wnd, numpy defaults per unspecified stage, normalisation arms, wrapper guards and keyword routing, emit loops, defaults. ")
 
 UNDECIDED = ["numeric values of the overlap sums and of the normalisation gain"]
 
